@@ -3,7 +3,18 @@ PROPS["C16"] = dict(
     technique="totality fuzzing: exhaustive short inputs and group strings, grammar-based adversarial generator (rapid), "
               "mutation of valid encodings (rapid), native go fuzz seeded with the hostile constants in the thorough tier",
     rule="case = one byte string, given to UnmarshalByte/Uint16/Uint32/Uint64/Uint/Bytes(newBuf false,true)/String(newBuf "
-         "false,true), once with cap == len and once inside a larger array. Oracle: no panic; error -> n == 0; success -> "
+         "false,true), once with cap == len and once inside a larger array, and - guard-page placement - once as a slice "
+         "(len == cap) that ENDS at the last byte in front of an inaccessible page and once as a slice that BEGINS at the first "
+         "byte behind an inaccessible page (one anonymous mapping per process: PROT_NONE page, 16 MiB, PROT_NONE page; "
+         "linux/amd64+arm64; the empty input is the empty slice AT the boundary), every call made with debug.SetPanicOnFault "
+         "on the calling goroutine: an access outside in[0:len] that goes around the bounds checks (unsafe word load, "
+         "assembly) and changes no result is a memory fault there = signature out-of-bounds-access:<function> with the "
+         "faulting offset relative to the input (an over-read, however harmless on the heap); the guard-page calls must also "
+         "return the n, the success/failure and the bytes of the same call on the heap copy (placement-dependent-result). "
+         "Every one-input case of the units exhaustive, grammar, mutate, fuzz and every replay gets the four presentations "
+         "(classes guard_pages_behind_and_in_front_of_input, guard_pages_empty_input, guard_pages_input_1-7_bytes, _8-16_bytes, "
+         "_17_bytes_to_4KiB, _ge_4KiB; inputs above 16 MiB: guard_pages_input_too_big_heap_only; no arena: "
+         "guard_pages_unavailable + an inconclusive note). Oracle: no panic; error -> n == 0; success -> "
          "0 < n <= len(in); returned bytes/string are in[i:j] by pointer arithmetic (newBuf=false) or equal to some in[i:j] and "
          "outside the input's memory (newBuf=true). Enumerated: all strings of length 0..2, all strings of length 3..4 "
          "(thorough 5) over 14 group-relevant bytes, all strings of length 5..10 over {ff,80,7f,01} (thorough also 00) - "
@@ -81,6 +92,7 @@ PROPS["C16"] = dict(
          "bytes that follow it or >= 2^31; a history is non-trivial when a later round changed the memory; "
          "distinct = FNV hash of the input bytes / of the history's JSON form",
     assumptions=["'sub-range of the input' is checked against in[0:len], not against the capacity",
+                 "'never over-read' (title) is read literally: a decoder may not touch memory outside in[0:len] even when the bytes it finds there do not influence what it returns - the memory behind a slice need not be mapped (mmap-ed file, end of an arena); observed through an inaccessible page next to the input",
                  "the Unmarshal functions are plain functions of their argument (no receiver, no documented state): 'for every byte string each Unmarshal function returns ...' is read as holding for a call whatever other Unmarshal calls are in progress on other goroutines, as long as nobody writes the input",
                  "the first calls a process makes are calls like any other: a lazily initialised table / pool inside the library must be safe for concurrent first use",
                  "a []byte returned with newBuf=true belongs to the caller, who may write every byte of it up to its capacity (buffer-reuse histories)",
